@@ -1477,8 +1477,8 @@ MUTANTS.append({
 # weakened by one, and behaviour-preserving reshapes of the same code.  Copies of the keyword-list reader under other names
 # share a scratch tree with the edits of the real one: the rule finds them by pattern, not by name.
 _UT = "src/xml/xml_util.cc"
-_DUP = ("    if (found_keys.count(key)) {\n      throw mjXError(elem, \"duplicate keyword: '%s'\");\n      return 0;\n    }\n\n")
-_REJ = ("    if (value == -1) {\n      throw mjXError(elem, \"invalid keyword: '%s'\");\n      return 0;\n    }\n\n")
+_DUP = ("    if (found_keys.count(key)) {\n      throw mjXError(elem, \"duplicate keyword: '%s'\", key.c_str());\n      return 0;\n    }\n\n")
+_REJ = ("    if (value == -1) {\n      throw mjXError(elem, \"invalid keyword: '%s'\", key.c_str());\n      return 0;\n    }\n\n")
 _INS = "    found_keys.insert(key);\n"
 _ANCHOR = "//---------------------------------- write functions -----------------------------------------------\n"
 
@@ -1516,7 +1516,7 @@ MUTANTS += [
     {"id": "mapvalues-insert-second", "group": "C", "expect": None,
      "edits": [(_UT, _DUP, ""), (_UT, _INS, ""),
                (_UT, "    int value = FindKey(map, mapSz, key);\n    if (value == -1) {",
-                "    if (!found_keys.insert(key).second) {\n      throw mjXError(elem, \"duplicate keyword: '%s'\");\n    }\n\n"
+                "    if (!found_keys.insert(key).second) {\n      throw mjXError(elem, \"duplicate keyword: '%s'\", key.c_str());\n    }\n\n"
                 "    int value = FindKey(map, mapSz, key);\n    if (value == -1) {")]},
     {"id": "keylist-presplit-tokens", "group": "C", "expect": None,
      "edits": [_clone("KeyListPresplit",
